@@ -35,7 +35,7 @@ func class(s string) string {
 var unsupportedKinds = []string{"chan", "func", "iface", "unsafeptr", "ustruct",
 	"ustruct1", "ustruct1c", "ustruct0", "ustructblank", "blankfield", "blankonly",
 	"ptrint", "ptrkeystruct", "ustructtag", "recvchan", "sendchan",
-	"ustructblankfunc", "selfptr", "hashmeth", "equalother", "compareother", "errort", "ustructembed", "ustructtagpct"}
+	"ustructblankfunc", "selfptr", "hashmeth", "equalother", "compareother", "errort", "ustructembed", "ustructtagpct", "extprivthird"}
 var positions = []string{"top", "field", "elem", "value", "ptr", "key", "arrayelem", "nested"}
 var typedPlugins = []string{"equal", "equalc", "compare", "hash", "deepcopy", "clone", "gostring", "keys", "sort", "minl", "maxt", "contains", "unique", "set", "unionl", "intersectm", "filter", "mem", "fmap", "join", "tuple", "traverse"}
 
@@ -90,6 +90,8 @@ func unsupported(kind string) *progen.Type {
 		return progen.NamedT(&progen.Decl{Name: "HashM", IsStruct: true, Fields: []progen.Field{{Name: "A", Type: progen.B("int")}, {Name: "L", Type: progen.SliceOf(progen.B("int"))}}})
 	case "equalother": // methods called Equal / Compare that are no equality / order on the type
 		return progen.NamedT(&progen.Decl{Name: "EqualO", IsStruct: true, Fields: []progen.Field{{Name: "A", Type: progen.B("int")}, {Name: "L", Type: progen.SliceOf(progen.B("int"))}}})
+	case "extprivthird": // a struct of another package whose unexported field has a type of a third package
+		return progen.NamedT(&progen.Decl{Name: "HolderT", IsStruct: true, Fields: []progen.Field{{Name: "A", Type: progen.B("int")}, {Name: "L", Type: progen.SliceOf(progen.B("int"))}}})
 	case "compareother":
 		return progen.NamedT(&progen.Decl{Name: "CompareO", IsStruct: true, Fields: []progen.Field{{Name: "A", Type: progen.B("int")}, {Name: "L", Type: progen.SliceOf(progen.B("int"))}}})
 	default:
@@ -118,6 +120,18 @@ func kindDecl(kind string) string {
 		return "type CompareO struct {\n\tA int\n\tL []int\n}\n\nfunc (e CompareO) Compare(s string) int { return len(s) }\n\n"
 	}
 	return ""
+}
+
+// kindFiles are the further files a kind needs in the module.
+func kindFiles(kind string) map[string]string {
+	if kind == "extprivthird" {
+		return map[string]string{
+			"p/holder.go":         "package p\n\nimport \"subj/xq/holder\"\n\n// HolderT is holder.Holder: no package but holder mentions the third package.\ntype HolderT = holder.Holder\n",
+			"xq/holder/holder.go": "package holder\n\nimport \"subj/xq/third\"\n\ntype Holder struct {\n\tA int\n\tL []int\n\td third.D\n}\n\nfunc New(a int, d int64) *Holder { return &Holder{A: a, d: third.D(d)} }\n",
+			"xq/third/third.go":   "package third\n\ntype D int64\n",
+		}
+	}
+	return nil
 }
 
 type faultCase struct {
@@ -458,6 +472,9 @@ func drawFault(t *rapid.T, n int) *faultCase {
 		u := unsupported(kind)
 		at, decl := place(t, p, u, pos, n)
 		decl = kindDecl(kind) + decl
+		for name, src := range kindFiles(kind) {
+			p.Extra[name] = src
+		}
 		if plugin == "deepcopy" && at.Kind != progen.Ptr && at.Kind != progen.Slice && at.Kind != progen.Map {
 			at = progen.PtrTo(at)
 		}
@@ -630,6 +647,9 @@ func sweep(c *pkit.Ctx) {
 				u := unsupported(kind)
 				at, decl := place(nil, p, u, pos, 0)
 				decl = kindDecl(kind) + decl
+				for name, src := range kindFiles(kind) {
+					p.Extra[name] = src
+				}
 				if plugin == "deepcopy" && at.Kind != progen.Ptr && at.Kind != progen.Slice && at.Kind != progen.Map {
 					at = progen.PtrTo(at)
 				}
